@@ -882,7 +882,7 @@ pub fn largest_body_lockstep(cov: &mut Cov) -> Option<Found> {
 /// C18: the database's write lock is held by another process for 3.5 s (within the 5 s lock-wait
 /// budget) while a write request arrives. Whatever the server answers: if it answers with an
 /// error, the stored state must be - and stay, once the lock is released - what it was.
-pub fn lock_held_part(cov: &mut Cov) -> Option<Found> {
+pub fn lock_held_part(cov: &mut Cov, prop: &'static str) -> Option<Found> {
     for (which, hold_ms) in [("AddVersion", 3500u64), ("AddSnapshot", 2600)] {
         let Ok(mut subj) = Subject::new(Kind::SQL_HTTP, Config::default()) else { continue };
         let c = Uuid::new_v4();
@@ -907,6 +907,14 @@ pub fn lock_held_part(cov: &mut Cov) -> Option<Found> {
         let _ = holder.join();
         cov.evaluations += 1;
         cov.hit(format!("write-lock-held-{}s:{which}:{}", hold_ms / 1000, resp.outcome()));
+        if let (Resp::Error(e), "C03") = (&resp, prop) {
+            return Some(Found {
+                property: "C03".into(),
+                signature: "C03:lock held".into(),
+                msg: format!("another process held the database's write lock for {hold_ms} ms (the lock-wait budget is 5 s); the {which} that overlapped it was answered with a server error after {} ms merely because of that: {e}", waited.as_millis()),
+                replay: json!({"origin": "lock-held", "case": 0}),
+            });
+        }
         if let Resp::Error(e) = &resp {
             // the lock is free now; give an abandoned piece of work time to finish
             std::thread::sleep(std::time::Duration::from_millis(2500));
